@@ -204,7 +204,7 @@ def make(targets, timeout=1500):
     """Full .vo build of the given targets (paths relative to coq/)."""
     with Lock():
         project_sync()
-        rc, out = sh(["make", "-j%d" % NCPU] + list(targets), timeout, cwd=str(COQ))
+        rc, out = sh(["make", "-j%d" % NCPU, "COQC=timeout 1200 coqc"] + list(targets), timeout, cwd=str(COQ))
     if rc != 0:
         raise BuildError("make failed for %s" % " ".join(targets), out)
     return out
